@@ -11,6 +11,7 @@ CFG = dict(
     ],
     level_text="Proved in Coq for every byte string and both lexer modes (no length bound), about coq/model/Lexer.v = lexer.go after five "
                "repairs (malformed exponent, second dot, NUL byte, unterminated string in file mode; plus the \\a\\b\\f\\v escapes added for C02): "
+               "C16_whitespace_is_space_tab_lf_cr (the whitespace class is part of the property: the generated isWhiteSpace is exactly {space, tab, LF, CR} on all 256 byte values), "
                "C16_tiling (lex_all = body ++ [end marker]; tokens in input order from 0, spans non-empty, pairwise disjoint, inside the input, "
                "only whitespace between them, every non-whitespace byte before the end marker covered; the end marker stands at the end of input "
                "or, line mode only, on an unterminated string = continuation), C16_tiling_file_mode (file mode: every non-whitespace byte is in "
@@ -20,8 +21,8 @@ CFG = dict(
                "later call), C16_keywords_not_idents, C16_no_abnormal_token (no nil token, no slice panic), C16_intern_functional_injective (explicit "
                "interning table: same object iff same (type, literal) after any history). All full, none partial. Tie: byte predicates, token tables, "
                "keywords and escapes are regenerated from the Go source; model and lexer.NextToken/Pos/HadWhitespace/HadNewline agree on every "
-               "string of length <= 2 over all 256 bytes and of length <= 3 (quick) / 4 (thorough) over a 27-symbol alphabet in both modes, random "
-               "longer inputs and mutated examples; a model-free oracle (rebuild the input from gaps + token texts, per-kind literal/span relation, "
+               "string of length <= 2 over all 256 bytes and of length <= 3 (quick) / 4 (thorough) over a 29-symbol alphabet (incl. \\v \\f) in both modes, every byte value between tokens of every kind, random "
+               "longer inputs and mutated examples; a model-free oracle judging with its own fixed whitespace set {space, tab, LF, CR} (rebuild the input from gaps + token texts, per-kind literal/span relation, "
                "sticky end marker, pointer identity) runs beside it.",
     level_note="Trusted: Coq kernel, extraction (ExtrOcamlBasic), OCaml driver, Go harness, translator; axioms: none (Print Assumptions: closed). "
                "The Go lexer itself is modelled, not verified. Side conditions on the generated data (p(0)=false for every loop predicate, every "
